@@ -322,6 +322,8 @@ def run(ctx):
     ctx.do(rule_float_literal_form)
     ctx.do(rule_hex_literal_form)
     ctx.do(rule_literal_validators_anchored)
+    from .pitfalls import rule_base64_validated_strictly
+    ctx.do(rule_base64_validated_strictly, "C10.binary-literal-form", ("stix2.patterns",))
     # timestamp literals are printed by the library's one timestamp writer
     from . import C15
     ctx.do(C15.rule_one_writer_one_reader, rule_id="C10.printer-complete")
